@@ -49,6 +49,14 @@ pub fn set_log(on: bool) {
 pub fn take_log() -> Vec<(usize, u64, i8)> {
     with(|t| std::mem::take(&mut t.log))
 }
+/// drain the log entries made by simulated thread `tid`
+pub fn take_log_for(tid: usize) -> Vec<(usize, u64, i8)> {
+    with(|t| {
+        let (mine, rest): (Vec<_>, Vec<_>) = std::mem::take(&mut t.log).into_iter().partition(|e| e.0 == tid);
+        t.log = rest;
+        mine
+    })
+}
 
 /// fault injection: the n-th (0-based) clone / eq from now panics (Rust-API paths only)
 pub fn arm_clone_panic(n: i64) {
